@@ -558,12 +558,12 @@ def main():
                 'From Coq Require Import List Bool.\nDefinition translation_failed : bool := true.\n')
         OUT.parent.mkdir(parents=True, exist_ok=True)
         if not OUT.exists() or OUT.read_text() != text:
-            OUT.write_text(text)
+            (print('CHANGED', OUT.name) if os.environ.get('REGEN_DRY') else OUT.write_text(text))
         print(f'skeleton translator error: {ex}', file=sys.stderr)
         return False
     OUT.parent.mkdir(parents=True, exist_ok=True)
     if not OUT.exists() or OUT.read_text() != text:
-        OUT.write_text(text)
+        (print('CHANGED', OUT.name) if os.environ.get('REGEN_DRY') else OUT.write_text(text))
     return True
 
 
